@@ -8,8 +8,8 @@
    and C15_lookup_fresh_current(_refuted) for which of them applies to the tree at hand. *)
 From Coq Require Import List NArith Bool.
 Import ListNotations.
-Require Import Verif.Lib.Wire Verif.Lib.C15Prog Verif.Gen.Facts_C15 Verif.Model.C15 Verif.Proofs.C15.
-Require Import Verif.Proofs.C15_sched Verif.Proofs.C15_lock.
+Require Import Verif.Lib.Wire Verif.Lib.C15Prog Verif.Lib.C15Init Verif.Gen.Facts_C15 Verif.Model.C15 Verif.Proofs.C15.
+Require Import Verif.Proofs.C15_sched Verif.Proofs.C15_lock Verif.Proofs.C15_hist.
 
 (* the translated programs are the ones the development is about (parameters: write through the
    local, [if views:] guard present, cache cleared by swapping in a new dictionary after registering) *)
@@ -215,3 +215,137 @@ Theorem C15_lookup_fresh_ordinary_only_partial : forall sro R0 tr1 k tr2,
             (cont t = [] -> tres t = Some (lookup_all sro (R st1) k)).
 Proof. exact lookup_fresh_ordinary_only_partial. Qed.
 Print Assumptions C15_lookup_fresh_ordinary_only_partial.
+
+(* ---- the remaining theorems without the lock (both lock-free bodies of [if views:]) ---- *)
+Theorem C15_no_stale_after_register_without_lock :
+  no_stale_claim KeyFull (lookup_with wb_nolock) register_prog /\
+  no_stale_claim KeyFull (lookup_with wb_nolock_split) register_prog.
+Proof. exact (conj (no_stale_any _ HwbN) (no_stale_any _ HwbS)). Qed.
+Print Assumptions C15_no_stale_after_register_without_lock.
+
+Theorem C15_concurrent_equals_sequential_without_lock :
+  concurrent_claim KeyFull (lookup_with wb_nolock) register_prog /\
+  concurrent_claim KeyFull (lookup_with wb_nolock_split) register_prog.
+Proof. exact (conj (concurrent_any _ HwbN) (concurrent_any _ HwbS)). Qed.
+Print Assumptions C15_concurrent_equals_sequential_without_lock.
+
+Theorem C15_expect_sound_without_lock :
+  expect_claim KeyFull (lookup_with wb_nolock) register_prog /\
+  expect_claim KeyFull (lookup_with wb_nolock_split) register_prog.
+Proof. exact (conj (expect_any _ HwbN) (expect_any _ HwbS)). Qed.
+Print Assumptions C15_expect_sound_without_lock.
+
+(* ---- re-initialisation of a live registry (Registry.__init__ run again: pyramid.testing.tearDown) ----
+   [init_prog] is translated from Registry.__init__ on this run.  Histories are label traces separated by
+   re-initialisations made in idle states (no lookup or registration in flight). *)
+Theorem C15_facts_init_router :
+  init_prog_ok init_prog = true /\ router_resets_iface = true /\ router_sets_route_iface = true.
+Proof. exact (conj facts_init_prog facts_router_iface). Qed.
+Print Assumptions C15_facts_init_router.
+
+(* lookup_fresh along histories: whatever happened before -- including any number of re-initialisations of
+   the registry after lookups were served -- a lookup that starts when no registration is in progress
+   returns lookup_all of the registrations in force *)
+Theorem C15_hist_lookup_fresh : forall sro R0 hs k tr2,
+  reinit_idle sro KeyFull lookup_prog register_prog init_prog hs (init R0) = true ->
+  let st1 := hexec sro KeyFull lookup_prog register_prog init_prog hs (init R0) in
+  let st2 := exec sro KeyFull lookup_prog register_prog (SpawnLookup k :: tr2) st1 in
+  quietb st1 = true ->
+  reg_free sro KeyFull lookup_prog register_prog st1 (SpawnLookup k :: tr2) = true ->
+  exists t, threads st2 (ntid st1) = Some t /\ tkind t = KLookup /\ tkey t = k /\
+            (cont t = [] -> tres t = Some (lookup_all sro (R st1) k)).
+Proof. exact hist_lookup_fresh. Qed.
+Print Assumptions C15_hist_lookup_fresh.
+
+(* ... and for EVERY init program that clears the cache and drops the registrations, in whichever order
+   (harmless rewrites of Registry.__init__ keep the theorem) *)
+Theorem C15_hist_lookup_fresh_any_order : forall IP, init_prog_ok IP = true ->
+  hist_fresh_claim KeyFull lookup_prog register_prog IP.
+Proof. exact hist_lookup_fresh_any_order. Qed.
+Print Assumptions C15_hist_lookup_fresh_any_order.
+
+(* right after a re-initialisation nothing is registered, the current cache is empty and every lookup
+   finds nothing -- whichever lookups were served (and cached) before *)
+Theorem C15_reinit_forgets : forall sro R0 hs k tr2,
+  reinit_idle sro KeyFull lookup_prog register_prog init_prog (hs ++ [HReinit]) (init R0) = true ->
+  let st1 := hexec sro KeyFull lookup_prog register_prog init_prog (hs ++ [HReinit]) (init R0) in
+  let st2 := exec sro KeyFull lookup_prog register_prog (SpawnLookup k :: tr2) st1 in
+  R st1 = [] /\ heap st1 (cur st1) = [] /\
+  (reg_free sro KeyFull lookup_prog register_prog st1 (SpawnLookup k :: tr2) = true ->
+   exists t, threads st2 (ntid st1) = Some t /\ tkind t = KLookup /\ tkey t = k /\
+             (cont t = [] -> tres t = Some [])).
+Proof. exact reinit_forgets. Qed.
+Print Assumptions C15_reinit_forgets.
+
+(* cache_inv / misses_not_cached along histories *)
+Theorem C15_hist_cache : forall sro R0 hs,
+  reinit_idle sro KeyFull lookup_prog register_prog init_prog hs (init R0) = true ->
+  let st := hexec sro KeyFull lookup_prog register_prog init_prog hs (init R0) in
+  (forall c k vs, dget (heap st c) k = Some vs -> vs <> []) /\
+  (quietb st = true -> forall k,
+      (forall vs, dget (heap st (cur st)) k = Some vs -> vs = lookup_all sro (R st) k) /\
+      (lookup_all sro (R st) k = [] -> dget (heap st (cur st)) k = None)).
+Proof. exact hist_cache. Qed.
+Print Assumptions C15_hist_cache.
+
+(* the expectation the harness judges histories with (hexpect) is sound *)
+Theorem C15_hist_expect_sound : forall sro R0 hs j vs t,
+  reinit_idle sro KeyFull lookup_prog register_prog init_prog hs (init R0) = true ->
+  hexpect sro KeyFull lookup_prog register_prog init_prog (init R0) hs (fun _ => None) j = Some vs ->
+  threads (hexec sro KeyFull lookup_prog register_prog init_prog hs (init R0)) j = Some t -> cont t = [] ->
+  tkind t = KLookup /\ tres t = Some vs.
+Proof. exact hist_expect_sound. Qed.
+Print Assumptions C15_hist_expect_sound.
+
+(* the wire glue for histories: the state reported is hexec of the history reported *)
+Theorem C15_tops_sound : forall sro km LP RP IP fuel ts st0,
+  let '(st', hs', _) := run_tops sro km LP RP IP fuel ts (st0, [], []) in
+  st' = hexec sro km LP RP IP (rev hs') st0.
+Proof. exact tops_sound. Qed.
+Print Assumptions C15_tops_sound.
+
+(* an init program that keeps the cache (lock creation AND clear skipped on a live registry) is refuted *)
+Theorem C15_hist_fresh_NoClear_refuted :
+  ~ hist_fresh_claim KeyFull (std_lookup Local true) (std_register Swap) [IResetAdapters].
+Proof. exact hist_fresh_NoClear_refuted. Qed.
+Print Assumptions C15_hist_fresh_NoClear_refuted.
+
+(* ---- the request type a Router dispatch looks views up with (Router.handle_request, facts
+   router_resets_iface / router_sets_route_iface) ----
+   it is a function of the route that matches NOW, whatever earlier dispatches left on the request object *)
+Theorem C15_dispatch_history_free : forall ms m,
+  dispatch_last router_resets_iface router_sets_route_iface (ms ++ [m]) = fresh_iface m.
+Proof. exact dispatch_last_history_free. Qed.
+Print Assumptions C15_dispatch_history_free.
+
+Theorem C15_dispatch_NoReset_refuted : ~ (forall prev m, dispatch_iface false true prev m = fresh_iface m).
+Proof. exact dispatch_NoReset_refuted. Qed.
+Print Assumptions C15_dispatch_NoReset_refuted.
+
+(* end to end: the lookup made by the last dispatch of any chain of dispatches of ONE request object, after
+   any history, returns lookup_all of the key a brand-new request for the same URL is looked up with *)
+Theorem C15_redispatch_fresh : forall sro R0 hs cl cx nm ms m tr2,
+  reinit_idle sro KeyFull lookup_prog register_prog init_prog hs (init R0) = true ->
+  let st1 := hexec sro KeyFull lookup_prog register_prog init_prog hs (init R0) in
+  let k := (cl, dispatch_last router_resets_iface router_sets_route_iface (ms ++ [m]), cx, nm) in
+  let st2 := exec sro KeyFull lookup_prog register_prog (SpawnLookup k :: tr2) st1 in
+  quietb st1 = true ->
+  reg_free sro KeyFull lookup_prog register_prog st1 (SpawnLookup k :: tr2) = true ->
+  exists t, threads st2 (ntid st1) = Some t /\ tkind t = KLookup /\
+            (cont t = [] -> tres t = Some (lookup_all sro (R st1) (cl, fresh_iface m, cx, nm))).
+Proof. exact redispatch_fresh. Qed.
+Print Assumptions C15_redispatch_fresh.
+
+(* ---- _call_view: generated = model ----
+   [gen_call_view] is the Gallina function translated from pyramid.view._call_view on this run (the loop over
+   the candidate list, the try/except PredicateMismatch, what is returned / re-raised afterwards); what ONE
+   candidate does with the request is the oracle [call].  It equals the reference model, hence the request is
+   answered by the first candidate of the list that does not raise PredicateMismatch *)
+Theorem C15_gen_call_view_is_model : forall call vs, gen_call_view call vs = model_call_view call vs false.
+Proof. exact gen_call_view_is_model. Qed.
+Print Assumptions C15_gen_call_view_is_model.
+
+Theorem C15_call_view_first_answer : forall tbl vs,
+  outcome_view (gen_call_view (call_of tbl) vs) = first_answer tbl vs.
+Proof. exact call_view_first_answer. Qed.
+Print Assumptions C15_call_view_first_answer.
